@@ -246,10 +246,7 @@ impl<'a> Dfa<'a> {
         }
 
         for equivalence_class in p.iter() {
-            #[cfg(not(grex_verif))]
             let old_source_state = *equivalence_class.iter().next().unwrap();
-            #[cfg(grex_verif)]
-            let old_source_state = crate::verif::choose_state(equivalence_class);
             let new_source_state = state_mappings.get(&old_source_state).unwrap();
 
             for old_target_state in self.graph.neighbors(old_source_state) {
